@@ -46,7 +46,8 @@ package aggsigdb
 // ---- MemDBV2 (lock + broadcast notification) ----------------------------------------------
 
 //@ func (m *MemDBV2) store
-//@ props C17
+//@ props C17 C18
+//@ ensures result == nil ==> ncalls(data.Clone) == 1
 //@ assigns m.data, m.keysByDuty
 //@ ensures has(old(m.data), key) ==> m.data == old(m.data)
 //@ ensures result == nil && !has(old(m.data), key) ==> has(m.data, key) && m.data[key] == res(0, data.Clone())
@@ -64,9 +65,17 @@ package aggsigdb
 //@ loop 1 invariant forallk(k, old(m.data), has(m.data, k) && m.data[k] == old(m.data)[k])
 
 //@ func (m *MemDBV2) Await$1
-//@ props C17
+//@ props C17 C18
 //@ requires errMustLoop != nil && errMustLoop != ErrStopped && errMustLoop != ctx.Err()
 //@ ensures r1 != nil ==> r2 == errMustLoop && !has(m.data, memDBKey{duty: duty, pubKey: pubKey, subcommIdx: subcommIdx}) && r1 == m.notify
 //@ ensures r2 == errMustLoop && r1 == nil ==> has(m.data, memDBKey{duty: duty, pubKey: pubKey, subcommIdx: subcommIdx}) || m.notify == nil
 //@ ensures r2 == nil ==> has(m.data, memDBKey{duty: duty, pubKey: pubKey, subcommIdx: subcommIdx}) && r0 == res(0, m.data[memDBKey{duty: duty, pubKey: pubKey, subcommIdx: subcommIdx}].Clone())
 //@ canary r2 != nil
+
+//@ func (db *MemDB) store
+//@ props C17 C18
+//@ callreq send db.commands: ncalls(data.Clone) == 1 && a1.data == clone && a1.memDBKey == key
+
+//@ func (db *MemDB) Await
+//@ props C17 C18
+//@ ensures r1 == nil ==> ncalls(value.Clone) == 1
